@@ -11,6 +11,7 @@ import (
 	"bytes"
 	"fmt"
 	"reflect"
+	"sort"
 	"strings"
 )
 
@@ -25,6 +26,66 @@ func init() {
 			return "FAIL " + msg
 		}
 		return fmt.Sprintf("ok %d", n)
+	}
+}
+
+// repvia <prog…;!v>: "encoding via an enclosing container does not change a later encoding of the same value" (C13),
+// decided on the implementation alone: the program is run; every variable other than the observed one that holds a
+// message (a child built on its own and attached to something later) is sized and encoded, then the observed value is
+// sized and encoded twice, then every child again: each child's size and bytes must be what they were.
+func init() {
+	runners["repvia"] = func(a []string) string {
+		src := strings.Join(a, "")
+		i := strings.LastIndex(src, ";!")
+		if i < 0 {
+			return "noprog"
+		}
+		vars := env{}
+		if out := runStmts(src[:i], vars); out != "" {
+			return out
+		}
+		top, ok := vars[src[i+2:]]
+		if !ok {
+			return "novar"
+		}
+		type snap struct {
+			name string
+			v    reflect.Value
+			l    string
+			b    string
+		}
+		var kids []snap
+		var names []string
+		for n := range vars {
+			names = append(names, n)
+		}
+		sort.Strings(names)
+		for _, n := range names {
+			v := vars[n]
+			if n == src[i+2:] || v.Kind() != reflect.Ptr || v.IsNil() || v.Elem().Kind() != reflect.Struct || !isMessage(v) {
+				continue
+			}
+			b, ok := marshalOf(v)
+			if !ok {
+				continue
+			}
+			kids = append(kids, snap{n, v, callLen(v), hx(b)})
+		}
+		if top.Kind() == reflect.Ptr && isMessage(top) {
+			callLen(top)
+			marshalOf(top)
+			marshalOf(top)
+		}
+		for _, k := range kids {
+			b, ok := marshalOf(k.v)
+			if !ok {
+				return "FAIL " + k.name + " no longer encodes after the container was encoded"
+			}
+			if l := callLen(k.v); l != k.l || hx(b) != k.b {
+				return fmt.Sprintf("FAIL %s: before the container was encoded size %s bytes %s, afterwards size %s bytes %s", k.name, k.l, k.b, l, hx(b))
+			}
+		}
+		return fmt.Sprintf("ok %d", len(kids))
 	}
 }
 
